@@ -27,33 +27,73 @@ import (
 
 func TestMain(m *testing.M) { inst.Main(m) }
 
-// guarded runs f with a watchdog. On expiry all goroutine stacks are dumped: a
-// call whose goroutines are all parked on channel operations / WaitGroups is a deadlock.
+// guarded runs f with a watchdog. Time alone is never the verdict: after 90 s the stacks of all goroutines that
+// are inside the library are sampled every 30 s. A call whose library goroutines are ALL parked (channel
+// operations, select, WaitGroup / mutex / condition waits) with identical stacks in two consecutive samples is a
+// deadlock. As long as one of them is running or runnable the call is merely slow (a loaded machine, the race
+// detector, GOMAXPROCS=1) and the watchdog keeps waiting; only after 10 minutes of that is it reported as a hang.
 func guarded(t *rapid.T, what string, f func()) {
 	done := make(chan interface{}, 1)
 	go func() {
 		defer func() { done <- recover() }()
 		f()
 	}()
-	select {
-	case p := <-done:
-		if p != nil {
-			t.Fatalf("%s panicked: %v", what, p)
-		}
-	case <-time.After(90 * time.Second):
-		buf := make([]byte, 1<<20)
+	libStacks := func() (all []string, parked bool) {
+		buf := make([]byte, 4<<20)
 		n := runtime.Stack(buf, true)
-		var keep []string
+		parked = true
 		for _, g := range strings.Split(string(buf[:n]), "\n\n") {
-			if strings.Contains(g, "roaring") {
-				lines := strings.Split(g, "\n")
-				if len(lines) > 8 {
-					lines = lines[:8]
-				}
-				keep = append(keep, strings.Join(lines, " | "))
+			if !strings.Contains(g, "RoaringBitmap/roaring") {
+				continue
 			}
+			lines := strings.Split(g, "\n")
+			state := ""
+			if i, j := strings.Index(lines[0], "["), strings.Index(lines[0], "]"); i >= 0 && j > i {
+				state = lines[0][i+1 : j]
+			}
+			if k := strings.Index(state, ","); k >= 0 {
+				state = state[:k] // "chan receive, 2 minutes"
+			}
+			switch state {
+			case "chan receive", "chan send", "select", "semacquire", "sync.WaitGroup.Wait", "sync.Mutex.Lock", "sync.RWMutex.RLock", "sync.RWMutex.Lock", "sync.Cond.Wait", "chan receive (nil chan)", "chan send (nil chan)", "select (no cases)":
+			default:
+				parked = false
+			}
+			if len(lines) > 10 {
+				lines = lines[:10]
+			}
+			// drop the goroutine header (it carries the waiting time, which changes between samples)
+			all = append(all, state+" | "+strings.Join(lines[1:], " | "))
 		}
-		t.Fatalf("%s did not return within 90 s (the same call normally takes milliseconds): deadlock or hang. Library goroutines:\n%s", what, strings.Join(keep, "\n"))
+		return all, parked && len(all) > 0
+	}
+	wait := 90 * time.Second
+	elapsed := time.Duration(0)
+	prev := ""
+	for {
+		select {
+		case p := <-done:
+			if p != nil {
+				t.Fatalf("%s panicked: %v", what, p)
+			}
+			return
+		case <-time.After(wait):
+		}
+		elapsed += wait
+		wait = 30 * time.Second
+		stacks, parked := libStacks()
+		sig := strings.Join(stacks, "\n")
+		if parked && sig == prev {
+			t.Fatalf("%s did not return after %v and every goroutine inside the library is parked, unchanged between two samples: deadlock. Library goroutines:\n%s", what, elapsed, sig)
+		}
+		if parked {
+			prev = sig
+		} else {
+			prev = ""
+		}
+		if elapsed >= 10*time.Minute {
+			t.Fatalf("%s still running after %v (the same call normally takes milliseconds): hang. Library goroutines:\n%s", what, elapsed, sig)
+		}
 	}
 }
 
@@ -739,8 +779,8 @@ func TestRegressC12SingleProc(t *testing.T) {
 			}
 			t.Fatalf("parallel aggregates in a process started with GOMAXPROCS=1: %v\n%s", err, o)
 		}
-	case <-time.After(120 * time.Second):
+	case <-time.After(300 * time.Second):
 		cmd.Process.Kill()
-		t.Fatalf("parallel aggregates in a process started with GOMAXPROCS=1 did not finish within 120 s (deadlock): %s", out.String())
+		t.Fatalf("parallel aggregates in a process started with GOMAXPROCS=1 did not finish within 300 s (deadlock): %s", out.String())
 	}
 }
